@@ -48,6 +48,15 @@ pub fn roundtrip(rs: &RefSentence) -> TestResult {
 }
 
 pub fn run(rep: &mut Report) {
+    rep.run_enum(
+        "scale-sentences",
+        "deterministic sentences of 65,535 / 65,536 / 65,537 / 70,000 / 131,080 characters (with \
+unknown labels and tags on any character), 255 / 256 / 300 tag columns, a tag of 70,000 \
+characters: same round trip",
+        false,
+        gen::scale_sentences(3, true).into_iter(),
+        |r: &RefSentence| roundtrip(r).map(|mut i| { i.nontrivial = true; i }),
+    );
     let n = rep.n(200000, 30000000);
     rep.run_prop(
         "write-parse",
